@@ -8,8 +8,8 @@ import logging
 import sys
 import types
 
-if "/repo" not in sys.path:
-    sys.path.insert(0, "/repo")
+if __import__("harness").REPO not in sys.path:
+    sys.path.insert(0, __import__("harness").REPO)
 
 import asyncfix.connection as _connmod  # noqa: E402
 from asyncfix import FIXMessage, FMsg, FTag  # noqa: E402
